@@ -221,7 +221,10 @@ def run(rep, tier, rng):
     exprs, meta, rexprs = [], [], []
     NUMS = [("int", 2, (2, 1, False)), ("float", 0.5, (1, 2, False)), ("np.float64", np.float64(0.5), (1, 2, False)),
             ("np.float32", np.float32(0.25), (1, 4, False)), ("np.int64", np.int64(3), (3, 1, False)), ("negint", -2, (2, 1, True)),
-            ("0-d array", np.array(1.5), (3, 2, False))]
+            ("0-d array", np.array(1.5), (3, 2, False)),
+            # numbers that need all their digits: a printer that rounds them changes the value
+            ("third", 1.0 / 3.0, (1, 3, False)), ("many-digits", 1234567.5, (2469135, 2, False)), ("np third", np.float64(2.0 / 7.0), (2, 7, False)),
+            ("small", 0.0001220703125, (1, 8192, False))]
 
     def gen_prog(depth, al):
         r = rng.random()
